@@ -940,10 +940,14 @@ class Buffer(Iterable):
             return
         self._stopped.set()
         tasks = self._tasks
-        while not tasks.empty():
-            _ = tasks.get()
-        # `tasks` is now empty. The thread needs to put at most one
-        # more element into the queue, which is safe.
+        while self._worker.is_alive():
+            # The worker may still put a few more elements (the one it holds,
+            # then an end marker or an exception); keep the queue drained
+            # until it has exited, otherwise it can block on a full queue.
+            try:
+                _ = tasks.get(timeout=0.01)
+            except queue.Empty:
+                pass
         self._worker.join()
         self._stopped = None
 
